@@ -9,7 +9,6 @@ import (
 	"runtime"
 	"runtime/debug"
 	"strconv"
-	"sync/atomic"
 	"testing"
 	"time"
 
@@ -47,9 +46,6 @@ func envU64(name string, def uint64) uint64 {
 	}
 	return def
 }
-
-var watchdogRun atomic.Int64
-var watchdogBeat atomic.Int64
 
 func startWatchdog(limit time.Duration) {
 	go func() {
@@ -99,7 +95,7 @@ func TestWorker(t *testing.T) {
 	// fatal stack overflow with inputs of a few MiB instead of hundreds.
 	// An iterative implementation uses O(1) stack whatever the limit.
 	debug.SetMaxStack(48 << 20)
-	startWatchdog(time.Duration(envInt("SIM_WATCHDOG_S", 120)) * time.Second)
+	startWatchdog(time.Duration(envInt("SIM_WATCHDOG_S", 300)) * time.Second)
 	ex := &Executor{T: t}
 	agg := NewAgg()
 
